@@ -397,7 +397,8 @@ def classify_exec(r):
 
 
 def strat_exec(tier):
-    txt = st.text("abcXYZ 019_-:;,.é", max_size=12)
+    # (texts with significant whitespace INSIDE a quoted argument: runs of blanks, tabs, line breaks)
+    txt = st.one_of(st.text("abcXYZ 019_-:;,.é", max_size=12), st.sampled_from(["a  b", "col1\tcol2", "line1\nline2", "  lead", "x \t y  z"]))
     cmd = st.fixed_dictionaries({"named": st.booleans(), "out": txt, "err": txt, "code": st.integers(1, 120), "noexe": st.sampled_from([False, False, False, True]), "sig": st.sampled_from([0, 0, 0, 1, 2, 3])})
     return st.fixed_dictionaries({
         "jid": st.sampled_from(["job", "j-1", "mol_A"]), "cmds": st.lists(cmd, min_size=1, max_size=4),
@@ -411,7 +412,7 @@ def strat_exec(tier):
 
 def enum_exec_real(tier, shard, nshards):
     base = {"jid": "job", "files": [["text", 3], ["bin", 257]], "env": ["jobA", "jobB"], "real": True}
-    cmds = [{"named": True, "out": "o0", "err": "e0", "code": 3}, {"named": False, "out": "o1", "err": "", "code": 4}, {"named": True, "out": "", "err": "e2", "code": 5}]
+    cmds = [{"named": True, "out": "o  0\tx", "err": "e0\n  e", "code": 3}, {"named": False, "out": "o1", "err": "", "code": 4}, {"named": True, "out": "", "err": "e2", "code": 5}]
     cases = []
     for fa in (None, 0, 1, 2):
         for rets in ([[2, False]], [[0, False], [2, True]], []):
